@@ -19,6 +19,9 @@ pub struct NodeSpec {
     pub stages: u8,
     /// insertion priority: among the nodes whose parent exists the smallest goes first
     pub prio: u16,
+    /// the module shuts itself down (without restart) when it handles its delayed message
+    #[serde(default)]
+    pub shuts_down: bool,
 }
 
 #[derive(Clone, Debug, Serialize, Deserialize)]
@@ -39,6 +42,7 @@ pub struct C12;
 
 struct M {
     stages: usize,
+    shuts_down: bool,
 }
 impl Module for M {
     fn num_sim_start_stages(&self) -> usize {
@@ -53,6 +57,9 @@ impl Module for M {
     }
     fn handle_message(&mut self, msg: Message) {
         net::log("handle", msg.header().id as i64, 0);
+        if self.shuts_down && msg.header().id == 1 {
+            current().shutdown();
+        }
     }
     fn at_sim_end(&mut self) -> Result<(), RuntimeError> {
         net::log("end", 0, 0);
@@ -61,6 +68,7 @@ impl Module for M {
 }
 
 struct Tree {
+    shuts_down: Vec<bool>,
     path: Vec<String>,
     parent: Vec<Option<usize>>,
     stages: Vec<usize>,
@@ -73,6 +81,7 @@ fn build_tree(case: &Case) -> Tree {
     let mut parent: Vec<Option<usize>> = Vec::new();
     let mut depth: Vec<usize> = Vec::new();
     let mut stages = Vec::new();
+    let mut shuts = Vec::new();
     let mut prio = Vec::new();
     for (i, n) in case.nodes.iter().enumerate() {
         let par = match n.parent {
@@ -95,6 +104,7 @@ fn build_tree(case: &Case) -> Tree {
         parent.push(par);
         depth.push(par.map_or(1, |p| depth[p] + 1));
         stages.push((n.stages % 4) as usize);
+        shuts.push(n.shuts_down);
         prio.push(n.prio);
     }
     // a valid insertion order: parents first, otherwise by priority
@@ -109,7 +119,7 @@ fn build_tree(case: &Case) -> Tree {
         inserted[next] = true;
         order.push(next);
     }
-    Tree { path, parent, stages, order }
+    Tree { shuts_down: shuts, path, parent, stages, order }
 }
 
 /// DFS pre-order with siblings in creation (= insertion) order.
@@ -147,7 +157,7 @@ pub fn run_case(case: &Case) -> Result<(bool, Vec<&'static str>), Failure> {
     let mut bad_done = 0;
     let mut inner = || -> Result<(), Failure> {
         for (k, &i) in t.order.iter().enumerate() {
-            sim.node(t.path[i].as_str(), M { stages: t.stages[i] });
+            sim.node(t.path[i].as_str(), M { stages: t.stages[i], shuts_down: t.shuts_down[i] });
             // rejected insertions after this step
             for (at, bad) in &case.bad {
                 if idx(*at, n) != k {
@@ -157,7 +167,7 @@ pub fn run_case(case: &Case) -> Result<(bool, Vec<&'static str>), Failure> {
                 match bad {
                     Bad::Duplicate(j) => {
                         let dup = &t.path[t.order[idx(*j, k + 1)]];
-                        match catch(|| sim.node(dup.as_str(), M { stages: 1 })) {
+                        match catch(|| sim.node(dup.as_str(), M { stages: 1, shuts_down: false })) {
                             Ok(()) => vfail!("duplicate-path-accepted", "node '{dup}' was inserted twice without a panic"),
                             Err((msg, _)) => vensure!(
                                 msg.contains("allready exists"),
@@ -169,7 +179,7 @@ pub fn run_case(case: &Case) -> Result<(bool, Vec<&'static str>), Failure> {
                     Bad::Orphan(j) => {
                         let base = &t.path[t.order[idx(*j, k + 1)]];
                         let orphan = format!("{base}.nope.child");
-                        match catch(|| sim.node(orphan.as_str(), M { stages: 1 })) {
+                        match catch(|| sim.node(orphan.as_str(), M { stages: 1, shuts_down: false })) {
                             Ok(()) => vfail!("orphan-accepted", "node '{orphan}' was inserted although its parent does not exist"),
                             Err((msg, _)) => vensure!(
                                 msg.contains("does not exist"),
@@ -298,6 +308,9 @@ pub fn run_case(case: &Case) -> Result<(bool, Vec<&'static str>), Failure> {
     if n >= 10 {
         labels.push("nodes>=10");
     }
+    if (0..n).any(|i| t.shuts_down[i] && t.stages[i] >= 1) {
+        labels.push("module-shut-down-before-the-end");
+    }
     Ok((multi_stage && interleaved, labels))
 }
 
@@ -306,7 +319,7 @@ impl Prop for C12 {
     type Case = Case;
 
     fn rule() -> String {
-        "proptest: module trees of <= 25 nodes (depth <= 4) with names from a pool sharing prefixes (a, ab, a1, a[0], a[1], b, ba, ä), inserted in a \
+        "proptest: module trees of <= 25 nodes (depth <= 4) with names from a pool sharing prefixes (a, ab, a1, a[0], a[1], b, ba, ä), some of which shut themselves down during the run (they still get at_sim_end), inserted in a \
          generated valid order (parents first, otherwise by generated priorities), per-module stage count 0..3, plus duplicate and orphan insertions \
          under catch_unwind at generated points. Oracle: at_sim_start log == for stage in 0..max: depth-first pre-order (siblings in creation order) \
          filtered by stage < stages(m); all starts before the first event; at_sim_end exactly once per module after the last event; documented \
@@ -326,8 +339,8 @@ impl Prop for C12 {
     }
     fn strategy(tier: Tier) -> BoxedStrategy<Case> {
         let max = tier.pick(16, 25);
-        let node = (proptest::option::weighted(0.7, any::<u16>()), 0u8..NAMES.len() as u8, 0u8..4, any::<u16>())
-            .prop_map(|(parent, name, stages, prio)| NodeSpec { parent, name, stages, prio });
+        let node = (proptest::option::weighted(0.7, any::<u16>()), 0u8..NAMES.len() as u8, 0u8..4, any::<u16>(), proptest::bool::weighted(0.15))
+            .prop_map(|(parent, name, stages, prio, shuts_down)| NodeSpec { parent, name, stages, prio, shuts_down });
         let bad = (any::<u16>(), prop_oneof![any::<u16>().prop_map(Bad::Duplicate), any::<u16>().prop_map(Bad::Orphan)]);
         (proptest::collection::vec(node, 1..max), proptest::collection::vec(bad, 0..3))
             .prop_map(|(nodes, bad)| Case { nodes, bad })
